@@ -46,3 +46,74 @@ def install(vm, lanes=2):
     def sample_normal(vm, m, c, a):
         k = m.fresh_id(); z = vm.alg.fresh('stdnormal_%d' % k); m.log('normals', z); return ret(m, z)
     vm.add_model(r'^<R as RngExt>::sample::<f64, StandardNormal>$', sample_normal)
+
+
+def install_linalg(vm):
+    """faer dense linear algebra as exact arithmetic over the float policy: Mat<f64> is a Seq of column Seqs, Col<f64> a Seq; matmul and the
+    operator overloads used by cpu_math.rs (Diag * Col, Mat^T * Col, Mat * Col, Col +- Col) compute the textbook sums in index order."""
+    A = vm.alg
+    def colv(vm, m, x):
+        v = deref_val(vm, m, x)
+        if isinstance(v, Struct) and v.ty in ('Diag',): v = deref_val(vm, m, v.f[0])
+        if not isinstance(v, Seq): raise VMError('not a column: %r' % (v,))
+        return list(v.items)
+    def matv(vm, m, x):
+        """returns (columns as lists, transposed?)"""
+        v = x
+        while isinstance(v, Ref): v = vm.read_at(m, v.cell, v.path)
+        if isinstance(v, Struct) and v.ty == 'MatT':
+            cols, t = matv(vm, m, v.f[0]); return cols, not t
+        if not isinstance(v, Seq): raise VMError('not a matrix: %r' % (v,))
+        return [list(deref_val(vm, m, c).items) for c in v.items], False
+    def mat_times_col(cols, transposed, x, nrows_hint):
+        if transposed:       # (U^T x)_j = sum_i U[i][j] x[i]
+            out = []
+            for col in cols:
+                acc = A.const(0.0)
+                for ui, xi in zip(col, x): acc = A.add(acc, A.mul(ui, xi))
+                out.append(acc)
+            return out
+        n = len(cols[0]) if cols else nrows_hint
+        out = [A.const(0.0)] * n
+        for col, xj in zip(cols, x): out = [A.add(o, A.mul(ui, xj)) for o, ui in zip(out, col)]
+        return out
+    vm.add_model(r'^mat::mat(own|ref|mut)::<impl faer::mat::generic::Mat<.*>>::ncols$', lambda vm, m, c, a: ret(m, len(matv(vm, m, a[0])[0])))
+    vm.add_model(r'^col::col(own|ref|mut)::<impl faer::col::generic::Col<.*>>::nrows$', lambda vm, m, c, a: ret(m, len(colv(vm, m, a[0]))))
+    def resize_with(vm, m, c, a):
+        r = a[0]; old = colv(vm, m, r); n = a[1]; new = old[:n]; ms = [(m, new)]
+        for i in range(len(old), n):
+            nxt = []
+            for (m1, acc) in ms:
+                for (m2, k, v) in vm.call_closure(m1, a[2], [i]):
+                    if k != 'ret': return [(m2, k, v)]
+                    nxt.append((m2, acc + [v]))
+            ms = nxt
+        outs = []
+        for (m1, acc) in ms: vm.write_at(m1, r.cell, list(r.path), Seq(acc)); outs.append((m1, 'ret', UNIT))
+        return outs
+    vm.add_model(r'^col::colown::<impl faer::col::generic::Col<.*>>::resize_with::<', resize_with)
+    vm.add_model(r'^(col::col(own|ref|mut)|mat::mat(own|ref|mut))::<impl faer::(col|mat)::generic::(Col|Mat)<.*>>::as_(mut|ref)$', lambda vm, m, c, a: ret(m, a[0]))
+    vm.add_model(r'^mat::mat(own|ref|mut)::<impl faer::mat::generic::Mat<.*>>::transpose$', lambda vm, m, c, a: ret(m, Struct((a[0],), 'MatT')))
+    vm.add_model(r'^col::col(own|ref|mut)::<impl faer::col::generic::Col<.*>>::as_diagonal$', lambda vm, m, c, a: ret(m, Struct((a[0],), 'Diag')))
+    def matmul(vm, m, c, a):
+        dst, acc, lhs, rhs, alpha = a[0], a[1], a[2], a[3], a[4]
+        cols, t = matv(vm, m, lhs); x = colv(vm, m, rhs); old = colv(vm, m, dst)
+        prod = mat_times_col(cols, t, x, len(old))
+        if len(prod) != len(old): return [(m, 'panic', ('matmul: dimension mismatch', (len(prod), len(old)), None))]
+        new = [A.add(o, A.mul(alpha, p)) if acc.name == 'Add' else A.mul(alpha, p) for o, p in zip(old, prod)]
+        vm.write_at(m, dst.cell, list(dst.path), Seq(new)); return ret(m, UNIT)
+    vm.add_model(r'^faer::linalg::matmul::matmul::<', matmul)
+    vm.add_model(r'^col::col(own|ref|mut)::<impl faer::col::generic::Col<.*>>::iter_mut$', lambda vm, m, c, a: ret(m, Iter(slice_refs(vm, m, a[0]))))
+    vm.add_model(r'^col::col(own|ref|mut)::<impl faer::col::generic::Col<.*>>::iter$', lambda vm, m, c, a: ret(m, Iter(slice_refs(vm, m, a[0]))))
+    def copy_from(vm, m, c, a):
+        vm.write_at(m, a[0].cell, list(a[0].path), Seq(colv(vm, m, a[1]))); return ret(m, UNIT)
+    vm.add_model(r'^col::colmut::<impl faer::col::generic::Col<.*>>::copy_from::<', copy_from)
+    vm.add_model(r'^col::colown::<impl faer::col::generic::Col<.*>>::zeros$', lambda vm, m, c, a: ret(m, Seq([A.const(0.0)] * a[0])))
+    vm.add_model(r'^<faer::diag::generic::Diag<.*> as Mul<.*Col<.*>>>::mul$', lambda vm, m, c, a: ret(m, Seq([A.mul(d, x) for d, x in zip(colv(vm, m, a[0]), colv(vm, m, a[1]))])))
+    def mat_mul_col(vm, m, c, a):
+        cols, t = matv(vm, m, a[0]); x = colv(vm, m, a[1])
+        if not cols and not t and getattr(vm, 'linalg_nrows', None) is None: raise Unmodelled('Mat * Col with an empty matrix needs the row count (vm.linalg_nrows)')
+        return ret(m, Seq(mat_times_col(cols, t, x, getattr(vm, 'linalg_nrows', 0) or 0)))
+    vm.add_model(r'^<&?faer::mat::generic::Mat<.*> as Mul<&?faer::col::generic::Col<.*>>>::mul$', mat_mul_col)
+    vm.add_model(r'^<faer::col::generic::Col<.*> as Sub<.*Col<.*>>>::sub$', lambda vm, m, c, a: ret(m, Seq([A.sub(x, y) for x, y in zip(colv(vm, m, a[0]), colv(vm, m, a[1]))])))
+    vm.add_model(r'^<faer::col::generic::Col<.*> as (std::ops::)?Add(<.*>)?>::add$', lambda vm, m, c, a: ret(m, Seq([A.add(x, y) for x, y in zip(colv(vm, m, a[0]), colv(vm, m, a[1]))])))
